@@ -60,7 +60,24 @@ def repo_version():
     return {"repo_head": head, "repo_dirty": dirty}
 
 
+def prune_xla_cache(limit=4 * 1024**3, target=2 * 1024**3):
+    """Keep the persistent XLA cache (a pure speed-up) bounded: oldest entries go first."""
+    d = os.environ.get("JXSIM_XLA_CACHE", os.path.join(VERIF, ".work", "xla_cache"))
+    try:
+        files = [(os.path.getmtime(os.path.join(d, f)), os.path.getsize(os.path.join(d, f)), os.path.join(d, f)) for f in os.listdir(d)]
+        total = sum(sz for _, sz, _ in files)
+        if total > limit:
+            for _, sz, path in sorted(files):
+                os.remove(path)
+                total -= sz
+                if total < target:
+                    break
+    except Exception:  # noqa: BLE001
+        pass
+
+
 def run_batch(prop, tier, batch_seed, nruns=None, workers=None, wall_limit=None, out=sys.stdout):
+    prune_xla_cache()
     sc = importlib.import_module(f"jxsim.scenarios.{prop.lower()}")
     nruns = nruns or int(os.environ.get("JXSIM_RUNS", 0)) or sc.RUNS[tier]
     workers = workers or int(os.environ.get("JXSIM_WORKERS", 0)) or min(16, os.cpu_count() or 4)
